@@ -54,3 +54,7 @@ func init() {
 	Checks["C03"] = func(c *Ctx) { c.lexerExploration() }
 	Checks["C04"] = func(c *Ctx) { c.lexerExploration() }
 }
+
+func init() {
+	Checks["C01"] = func(c *Ctx) { c.lexerExploration() }
+}
